@@ -43,14 +43,14 @@ var (
 
 // interpreter is the per-worker interpreter state.
 type interpreter struct {
-	prog    *ssa.Program
-	globals map[*ssa.Global]*value
-	w       *Worker
-	steps   int
-	depth   int
-	stack   []*ssa.Function
-	foreign map[*ssa.Global]bool // foreign globals initialised lazily (kept across paths)
-	shared  *sharedMonitor
+	prog      *ssa.Program
+	globals   map[*ssa.Global]*value
+	w         *Worker
+	steps     int
+	depth     int
+	stack     []*ssa.Function
+	foreign   map[*ssa.Global]bool // foreign globals initialised lazily (kept across paths)
+	shared    *sharedMonitor
 	syncDepth int // >0 while inside a sync primitive (Once.Do, held mutex)
 }
 
